@@ -9,11 +9,13 @@ bitset_intersection_update bitset_difference_update bitset_union bitset_intersec
 bitset_invert bitset_clear bitset_trim bitset_resize bitset_len bitset_bool bitset_first bitset_last
 bitset_before bitset_after sis_ofSource sis_contains sis_add sis_discard sis_before sis_after sis_first_last
 sis_update sis_intersection sis_difference sis_invariant sis_invert_exact sis_invert_partial
-rev_iter rev_contains rev_first rev_last rev_len rev_add rev_discard
+rev_iter rev_contains rev_first rev_last rev_len rev_add rev_discard rev_contains_exact rev_contains_out_of_range
+rev_len_exact rev_add_out_of_range rev_update rev_difference_update rev_unsupported multi_unsupported
 multi_iter_sorted multi_contains multi_len
 delta_roundtrip delta_roundtrip_inv fixed_roundtrip fixed_get varints_roundtrip growable_contents growable_fits
 growable_extend growable_thresholds growable_nat_never_fails growable_readback
-hash_build_total hash_lookup hash_get_contains hash_items ordered_closest_key ordered_items_from
+hash_build_total hash_writer_formats hash_writer_rejects hash_lookup hash_get_contains hash_items
+ordered_writer_rejects ordered_writer_formats ordered_closest_key ordered_items_from
 extsort_sorted_perm extsort_reduce_bound extsort_rejects compound_member_bytes compound_directory
 compound_writer_streams b85_roundtrip b85_chars_ascending""".split()
 THEOREMS = (["WM.C20.varint_roundtrip", "WM.C20.zigzag_roundtrip", "WM.C20.signed_varint_roundtrip",
@@ -22,6 +24,26 @@ PARTIAL = {
     "WM.C20.sis_invert_partial": "full statement `sis_invert_full` (for every size) is false for the generic "
                                  "DocIdSet.invert_update loop: members >= size are kept (recorded finding; negation "
                                  "proved for SortedIntSet([1,2,9]).invert(5)); `sis_invert_exact` states what the loop does",
+    "WM.C20.rev_unsupported": "ReverseIdSet has no before/after/copy/union/intersection/difference/invert: they raise "
+                              "NotImplementedError (full statement `rev_api_full` is false, negation proved; 7 recorded "
+                              "findings); its inherited intersection_update is modelled and run but not proved",
+    "WM.C20.multi_unsupported": "MultiIdSet has no first/last/before/after/copy/union/intersection/difference/invert "
+                                "(NotImplementedError; `multi_api_full` false, negation proved; 9 recorded findings)",
+    "WM.C20.rev_contains": "needs i < limit; outside it `rev_contains_exact`/`rev_contains_out_of_range` state what the "
+                           "code answers (True for every i >= limit not in the wrapped set, though never iterated)",
+    "WM.C20.rev_len": "needs all wrapped members < limit; `rev_len_exact` gives limit - len(idset) in general "
+                      "(len() raises ValueError when that is negative)",
+    "WM.C20.rev_add": "needs n < limit; `rev_add_out_of_range`: for n >= limit iteration is unchanged, only the wrapped "
+                      "set loses n",
+    "WM.C20.hash_lookup": "record-level model: the byte encoding of the `!ii`/`!Iq`/`!qi` structs, the header, directory "
+                          "and pickled extras are parsed by the harness and compared field by field, not modelled; the "
+                          "format limits are hypotheses through buildE (hash_writer_formats / hash_writer_rejects); the "
+                          "position index is read from the GrowableArray bytes (ordered_writer_formats)",
+    "WM.C20.compound_member_bytes": "directory kept as a list: the header back-patch, reading the directory position "
+                                    "and the pickle round trip are not modelled; SubFile.read(n) chunking is exercised "
+                                    "end-to-end only (seek/read slices), the theorem reads whole members",
+    "WM.C20.growable_contents": "GrowableArray._retype's `except ValueError: self.array = list(...)` fallback (arrays "
+                                "without 'q' support, Python < 3.3) is not modelled",
 }
 RULE = ("varint: every n < 2^14 plus boundary-biased samples up to 2^70 (non-trivial: more than one byte). "
         "id sets: random op programs (3-24 ops; values biased to byte boundaries, 8k-1/8k/8k+1, beyond the array) on "
@@ -160,7 +182,7 @@ TRUSTED = [
     "Simple16 and GInts codecs: not modelled, run end-to-end only",
 ]
 EXPLANATION = (
-    "Every run: (1) axiom audit of the 74 theorems; (2) correspondence: generated op programs / number lists / "
+    "Every run: (1) axiom audit of the 86 theorems; (2) correspondence: generated op programs / number lists / "
     "key-value sets / sort inputs / member files are executed on the real whoosh classes and on the compiled Lean "
     "models, raw state compared (bit arrays, sorted arrays, typecodes, record positions, every hash-table slot, "
     "directory offsets, sub-stream blocks); (3) end-to-end: the public API against the Lean specification "
@@ -175,7 +197,11 @@ MANIFEST = {
                   "growable-array and base-85 codecs round-trip; the external sort returns a sorted permutation; compound "
                   "members and sub-streams are byte-identical. Models are tied to whoosh by differential runs on every check.",
     "level_note": "Partial: SortedIntSet.invert (generic DocIdSet.invert_update keeps members >= size) is proved only for sets "
-                  "below `size` (recorded finding, exact behaviour proved as sis_invert_exact). Not modelled: Simple16/GInts, "
+                  "below `size` (recorded finding, exact behaviour proved as sis_invert_exact). ReverseIdSet/MultiIdSet lack "
+                  "before/after/copy/union/... (NotImplementedError: rev_unsupported, multi_unsupported, 16 recorded findings); "
+                  "ReverseIdSet outside [0,limit) is described by rev_*_exact/_out_of_range. Hash files: record-level model with "
+                  "the struct-format limits as checked preconditions (buildE/buildOrderedE), position index read from the "
+                  "GrowableArray bytes. Not modelled: Simple16/GInts, "
                   "byte-level struct/pickle layout, temp files of the sort, FieldedOrderedHash*, RoaringIdSet, b85encode/b85decode "
                   "(last three are broken on this tree: recorded findings / out of the property's list). Trusted: Lean kernel "
                   "+ propext/Quot.sound/Classical.choice, CPython stdlib pieces modelled by specification.",
